@@ -240,6 +240,11 @@ def gen(ctx, model):
     for ctr in [0, 1, 2**32 - 1, 2**32 - 2, r.below(2**32)]:
         for nb in [0, 1, 2, 3]:
             add("chacha %s %s %d %d" % (r.bytes(32).hex(), r.bytes(12).hex(), ctr, nb), "chacha:ctr%s:n%d" % ("wrap" if ctr >= 2**32 - 2 else "n", min(nb, 2)))
+    # one context, several generate calls (C04b_chacha20_keystream_chunking / _is_rfc8439_blocks), counter wrap inside a later call
+    for ctr in [0, 2**32 - 1, 2**32 - 2, 2**32 - 3, r.below(2**32)]:
+        for counts in ([1, 1], [2, 1], [0, 2, 0, 1], [1, 2, 3], [r.range(0, 3) for _ in range(r.range(2, 5))]):
+            add("chachas %s %s %d %s" % (r.bytes(32).hex(), r.bytes(12).hex(), ctr, ",".join(map(str, counts))),
+                "chachas:ctr%s:calls%d" % ("wrap" if ctr + sum(counts) >= 2**32 else "n", min(len(counts), 3)))
     # ---------------- SM4-CBC/CTR + SM3-HMAC ----------------
     enc_lines, metas = [], []
     for mode in ("cbc", "ctr"):
@@ -358,7 +363,7 @@ def run(ctx):
 def finish(ctx):
     ctx.assumptions = [
         "gf128_mul: C limb loop = 128-bit Horner form = SP 800-38D Algorithm 1 are theorems (C04b_gf128_mul_limbs, C04b_gf128_mul_spec); the identification of Algorithm 1 with multiplication in GF(2)[x]/(x^128+x^7+x^2+x+1) is the standard's definition (ring laws not proved)",
-        "AES / ZUC / ChaCha20 models are the standards' definitions pinned by their published vectors (Examples); aes_dec_enc, AES S-box table = inverse+affine map, ZUC streaming = one-shot and LFSR range are theorems",
+        "AES / ZUC / ChaCha20 models are the standards' definitions pinned by their published vectors (Examples); aes_dec_enc, AES S-box table = inverse+affine map, ZUC streaming = one-shot, LFSR range, and the ChaCha20 keystream loop (blocks at c, c+1, ... mod 2^32; split into calls; 64*n bytes) are theorems",
         "CCM Impl model = RFC 3610 Spec is a theorem (ccm_eq_rfc3610); the Spec is pinned by RFC 8998 A.2",
         "SIMD/AES-NI back-ends not built in the quick tier",
     ]
